@@ -218,7 +218,7 @@ def library_history_oracle(ctx):
     from pydrobert.speech import compute, filters
 
     r = ctx.rng
-    n = ctx.scale(12, 200)
+    n = ctx.scale(40, 400)
     for _ in range(n):
         if ctx.out_of_time():
             break
@@ -267,10 +267,12 @@ def library_history_oracle(ctx):
         try:
             for _u in range(r.randrange(1, 4)):
                 N = r.choice([0, 1, L // 2, L, 3 * L + 5])
-                x = rs.randn(N)
+                # utterances of different float dtypes on one instance (the very first may be float32):
+                # nothing allocated for one utterance's dtype may survive into the next
+                x = rs.randn(N).astype(r.choice([np.float64, np.float32, np.float32]))
                 x.setflags(write=False)
                 mode = r.choice(["chunks", "full", "fbf", "short"])
-                hist_desc.append((mode, N))
+                hist_desc.append((mode, N, str(x.dtype)))
                 if mode == "full":
                     a.compute_full(x)
                 elif mode == "fbf":
@@ -290,7 +292,7 @@ def library_history_oracle(ctx):
                     if r.random() < 0.3:
                         a.finalize()
             N = r.choice([L // 2 + 1, L, 2 * L + 3, 4 * L + 1])
-            x = rs.randn(N)
+            x = rs.randn(N).astype(r.choice([np.float64, np.float64, np.float32]))
             x.setflags(write=False)
             chunks = split(r, N)
             outs = []
@@ -305,7 +307,7 @@ def library_history_oracle(ctx):
             ctx.violation(dict(computer=which, bank=kind, hist=hist_desc), "no exception", "%s: %s" % (type(e).__name__, e),
                           "history of calls raises", tags=dict(clause="raises", computer=which, exc=type(e).__name__))
             continue
-        case = dict(computer=which, bank=kind, style=style, L=L, S=S, hist=hist_desc, N=N, chunks=chunks)
+        case = dict(computer=which, bank=kind, style=style, L=L, S=S, hist=hist_desc, N=N, chunks=chunks, dtype=str(x.dtype))
         ctx.case(case, kind="library:" + which)
         if outs[0].shape != outs[1].shape or outs[0].tobytes() != outs[1].tobytes():
             ctx.violation(case, "bit-identical", "differs", "history-laden instance vs fresh instance on the next utterance (bit-identical)",
